@@ -663,6 +663,9 @@ func (o *c09Op) apply(s *StateDB) {
 	case c09OpAddBalance:
 		s.AddBalance(o.addr, new(big.Int).Set(o.amount))
 	case c09OpSubBalance:
+		// documented precondition of every caller (CanTransfer / buyGas check the
+		// balance first); a negative balance has no RLP encoding
+		vs.Assume(s.GetBalance(o.addr).Cmp(o.amount) >= 0)
 		s.SubBalance(o.addr, new(big.Int).Set(o.amount))
 	case c09OpSetBalance:
 		s.SetBalance(o.addr, new(big.Int).Set(o.amount))
